@@ -676,5 +676,38 @@ def r09_15(ctx):
     delegate(ctx, c10.r10_1b, lambda c: '_str_default' in c)
 
 
+def r09_16(ctx):
+    """R09.16 operands of a relation convert for every type and every size: (a) _sym_to_num() tries float() for any text int()
+    refuses, whatever the symbol's type (a literal such as `8.0` is a constant of unknown type) - behind a type test for FLOAT
+    only, `GAIN >= 8.0` falls back to comparing text; (b) expr_value() never passes an operand through float(): an int beyond
+    the float range raises OverflowError, which the ValueError fallback does not catch."""
+    repo = ctx.repo
+    f = repo.func(f"{CORE}:_sym_to_num")
+    ctx.analysed(f.qual)
+    fl = Flow(f.node, resolver=Resolver(f.node)).run()
+    floats = [n for n in ast.walk(f.node) if isinstance(n, ast.Call) and isinstance(n.func, ast.Name) and n.func.id == "float" and n.args and "str_value" in ast.unparse(n.args[0])]
+    construct = "_sym_to_num/float() is tried for whatever int() refuses"
+    free = [c for c in floats if not any("FLOAT" in k and p for k, p in (fl.guards_at(c) or set()))]
+    in_handler = [c for c in free if any(isinstance(p_, ast.ExceptHandler) for p_ in _anc_nodes(repo, c))]
+    (ctx.ok(construct, f.loc(in_handler[0])) if in_handler else
+     ctx.bad(construct, "no float() conversion in the handler of the failed int(): a fractional literal (`8.0`, type unknown) does not convert and the relation is decided "
+             "by comparing text", f.loc(floats[0]) if floats else f.loc()))
+    e = repo.func(f"{CORE}:expr_value")
+    ctx.analysed(e.qual)
+    construct = "expr_value/no operand is forced through float()"
+    conv = [n for n in ast.walk(e.node) if isinstance(n, ast.Call) and isinstance(n.func, ast.Name) and n.func.id == "float"]
+    bad = [c for c in conv if not any(isinstance(p_, ast.Try) and any(h.type is None or any(w in ast.unparse(h.type) for w in ("OverflowError", "ArithmeticError", "Exception")) for h in p_.handlers)
+                                      and any(c is x for b_ in p_.body for x in ast.walk(b_)) for p_ in _anc_nodes(repo, c))]
+    (ctx.bad(construct, f"`{ast.unparse(bad[0])}`: an int beyond the float range (1e400 as an int) raises OverflowError - evaluation, every generator and the config server die", e.loc(bad[0]))
+     if bad else ctx.ok(construct, e.loc()))
+
+
+def _anc_nodes(repo, n):
+    p = repo.parent(n)
+    while p is not None:
+        yield p
+        p = repo.parent(p)
+
+
 def rules():
-    return [("R09.15", r09_15, 1), ("R09.14", r09_14, 3), ("R09.13", r09_13, 4), ("R09.12", r09_12, 1), ("R09.11", r09_11, 1), ("R09.10", r09_10, 80), ("R09.9", r09_9, 1), ("R09.8", r09_8, 1), ("R09.7", r09_7, 2), ("R09.6", r09_6, 6), ("R09.1", r09_1, 14), ("R09.1b", r09_1b, 3), ("R09.2", r09_2, 6), ("R09.3", r09_3, 8), ("R09.4", r09_4, 5), ("R09.5", r09_5, 10)]
+    return [("R09.16", r09_16, 2), ("R09.15", r09_15, 1), ("R09.14", r09_14, 3), ("R09.13", r09_13, 4), ("R09.12", r09_12, 1), ("R09.11", r09_11, 1), ("R09.10", r09_10, 80), ("R09.9", r09_9, 1), ("R09.8", r09_8, 1), ("R09.7", r09_7, 2), ("R09.6", r09_6, 6), ("R09.1", r09_1, 14), ("R09.1b", r09_1b, 3), ("R09.2", r09_2, 6), ("R09.3", r09_3, 8), ("R09.4", r09_4, 5), ("R09.5", r09_5, 10)]
